@@ -414,6 +414,21 @@ func checkLambda(src string) (prob *problem, ok bool) {
 	return
 }
 
+func classed(kind, src string) string {
+	if strings.HasPrefix(kind, "json-roundtrip-differs:ReferenceNode") || strings.HasPrefix(kind, "lambda-json") {
+		return kind + classSuffix(src)
+	}
+	return kind
+}
+
+// classSuffix marks inputs of special literal classes so that their failures get their own key.
+func classSuffix(src string) string {
+	if strings.Contains(src, "9223372036854775807") {
+		return ":int64-beyond-2^53"
+	}
+	return ""
+}
+
 // sameTree compares structure through the JSON form (operators, literals, functions, nesting).
 func sameTree(a, b ast.Node) bool {
 	return dump(reflect.ValueOf(a), 0) == dump(reflect.ValueOf(b), 0)
@@ -464,7 +479,7 @@ func lambdas() []string {
 }
 
 func literals() []string {
-	return []string{`1`, `0`, `007`, `10`, `1.0`, `0.5`, `1.50`, `100000000000`, `-1`, `-1.5`, `'s'`, `''`, `'a\'b'`, `'''tri'ple'''`, `'back\\slash'`, "'new\nline'", `'unié'`, `'a"b'`, `'''a\'b'''`,
+	return []string{`1`, `0`, `007`, `10`, `1.0`, `0.5`, `1.50`, `100000000000`, `1000000.0`, `2500000.5`, `123456789012.0`, `0.00001`, `0.000000123`, `9223372036854775807`, `-1`, `-1.5`, `'s'`, `''`, `'a\'b'`, `'''tri'ple'''`, `'back\\slash'`, "'new\nline'", `'unié'`, `'a"b'`, `'''a\'b'''`,
 		`1u`, `1µ`, `1ms`, `1s`, `90s`, `1m`, `1h`, `1d`, `1w`, `-5m`, `1h30m`, `TRUE`, `FALSE`, `/re/`, `/a\/b/`, `/[a-z]+\d/`, `/a b/`}
 }
 
@@ -670,12 +685,12 @@ func TestCheck(t *testing.T) {
 		}
 		if c.Lambda != "" {
 			if p, _ := checkLambda(c.Lambda); p != nil {
-				r.Violation(p.kind, p.msg, c)
+				r.Violation(classed(p.kind, c.Lambda), p.msg, c)
 			}
 		} else {
 			ps, _ := check(c.Case)
 			for _, p := range ps {
-				r.Violation(p.kind, p.msg+"\n--- script:\n"+c.Script, c)
+				r.Violation(classed(p.kind, c.Script), p.msg+"\n--- script:\n"+c.Script, c)
 			}
 		}
 		r.Add("evaluations", 1)
@@ -697,7 +712,7 @@ func TestCheck(t *testing.T) {
 		r.AddDistinct("nontrivial", 1)
 		r.Add("task_scripts_"+class, 1)
 		for _, p := range ps {
-			r.Violation(p.kind, p.msg+"\n--- script:\n"+c.Script, c)
+			r.Violation(classed(p.kind, c.Script), p.msg+"\n--- script:\n"+c.Script, c)
 		}
 		if r.WantSample() && n%300 == 5 {
 			r.Sample(c.Script)
@@ -743,7 +758,7 @@ func TestCheck(t *testing.T) {
 		r.AddDistinct("nontrivial", 1)
 		r.Add("lambdas", 1)
 		if p != nil {
-			r.Violation(p.kind, p.msg, map[string]any{"Lambda": l})
+			r.Violation(classed(p.kind, l), p.msg, map[string]any{"Lambda": l})
 		}
 	}
 }
